@@ -88,6 +88,7 @@ func init() {
 			}
 			return []*Val{fc.freshVal("sprintf", str)}
 		}},
+		"(reflect.Value).String": {apply: func(fc *fctx, a []*Val, _ token.Pos) []*Val { return []*Val{fc.freshVal("rvstr", str)} }},
 		"(*sync.Once).Do":         {apply: noop},
 		"(*sync.RWMutex).Lock":    {apply: noop},
 		"(*sync.RWMutex).Unlock":  {apply: noop},
@@ -128,6 +129,10 @@ func (fc *fctx) externalCall(callee *ssa.Function, args []*Val, cc *ssa.CallComm
 		}
 	case "github.com/go-openapi/swag.ConcatJSON":
 		if r := fc.concatJSON(cc, pos); r != nil {
+			return r
+		}
+	case "github.com/go-openapi/jsonpointer.GetForToken":
+		if r := fc.getForToken(cc, args, pos); r != nil {
 			return r
 		}
 	case "reflect.ValueOf":
